@@ -83,6 +83,8 @@ func (e *eventRingBuffer) GetRecentEvents(count uint64) []*si.EventRecord {
 	} else {
 		startID = lastID - count + 1
 	}
+	// count may be larger than what is still stored: start at the oldest available event
+	startID = max(startID, e.getLowestID())
 
 	history, _, _ := e.getEventsFromID(startID, count)
 	return history
